@@ -9,4 +9,5 @@ Extraction "c18_model.ml"
   c18_concatPaths c18_relativePath c18_hasPrefix c18_hasSuffix c18_hasPrefix_c c18_hasSuffix_c c18_cstr
   c18_formatString c18_formatString_err c18_param_format_buffer
   c18_canon c18_denote c18_nf c18_eq_loc c18_spec_pretty c18_spec_isdir c18_spec_concat
-  c18_spec_rel_defined c18_spec_rel_accepts c18_spec_prefix c18_spec_suffix c18_eqs.
+  c18_spec_rel_defined c18_spec_rel_accepts c18_spec_prefix c18_spec_suffix c18_eqs
+  c18_relativePath_msg c18_spec_rel_message c18_msg_format c18_denote_then c18_is_abs c18_formatString_n c18_snprintf.
